@@ -19,6 +19,68 @@ type Inner struct {
 	B string
 }
 
+// Wide3: long collections of scalars under required / exist in front of a nested object whose required member is empty.
+type Wide3 struct {
+	IDs   []int64           `valid:"required"`
+	Names []string          `valid:"exist"`
+	M     map[string]string `valid:"required"`
+	In    Inner3            `valid:"required"`
+	Ptrs  []*Inner3         `valid:"exist"`
+}
+
+type Inner3 struct {
+	V string `valid:"required"`
+	K int
+}
+
+func longCollections(c *runner.Ctx) {
+	c.Space("required-next-to-long-collections")
+	for _, n := range []int{1, 50, 63, 64, 98, 99, 100, 127, 128, 129, 255, 256, 1000} {
+		for shape := 0; shape < 3; shape++ {
+			if !c.Take() {
+				continue
+			}
+			w := &Wide3{In: Inner3{K: 1}, M: map[string]string{}}
+			want := []string{`"Wide3.In.V" input "", explain: it is required`}
+			switch shape {
+			case 0:
+				w.IDs = make([]int64, n)
+				w.Names = []string{"a"}
+				w.M["k"] = "v"
+			case 1:
+				w.IDs = []int64{1}
+				w.Names = make([]string, n)
+				for i := 0; i < n && i < 300; i++ {
+					w.M[fmt.Sprint("k", i)] = "v"
+				}
+			case 2:
+				// many nil pointers in front of one element that violates
+				w.IDs = []int64{1}
+				w.M["k"] = "v"
+				w.Ptrs = make([]*Inner3, n+1)
+				w.Ptrs[n] = &Inner3{K: 2}
+				want = append(want, fmt.Sprintf(`"Wide3.Ptrs[%d].V" input "", explain: it is required`, n))
+			}
+			var err error
+			pan, msg, site := runner.Guard(func() { err = valid.Struct(w) })
+			c.Done(true, 1)
+			got := ""
+			if err != nil {
+				got = err.Error()
+			}
+			det := map[string]interface{}{"elements": n, "shape": []string{"long []int64", "long []string and map", "nil pointers before a violating element"}[shape], "expected": strings.Join(want, "; "), "actual": got}
+			if pan {
+				det["panic"] = msg
+				c.Violation("panic@"+site, det)
+			} else if got != strings.Join(want, "; ") {
+				c.Violation("long-collections/required-member-of-the-nested-object", det)
+			} else {
+				c.Outcome("long-collections-ok")
+			}
+		}
+	}
+}
+
 type tval struct {
 	name     string
 	v        reflect.Value
@@ -320,6 +382,7 @@ func run(c *runner.Ctx) {
 			c.Sample(func() interface{} { return map[string]interface{}{"value": tv.name, "rules": rf.rules} })
 		}
 	}
+	longCollections(c)
 	// missing entries: map without the key, URL without the parameter
 	c.Space("missing-and-url")
 	for _, rf := range forms {
